@@ -25,7 +25,7 @@ type c17Case struct {
 	Variant int      `json:"variant"`
 	Form    string   `json:"form"` // direct | prefix | piped | lookup
 	Args    []c17Arg `json:"args"`
-	Slot    int      `json:"slot,omitempty"` // piped-slot: position of '_' among the written arguments
+	Slot    int      `json:"slot,omitempty"` // piped-slot: position of '_' among the written arguments; lookup: the surface form
 	Expr    string   `json:"expr"`
 }
 
@@ -99,6 +99,9 @@ func genC17(t *rapid.T) c17Case {
 	for i := 0; i < n; i++ {
 		c.Args = append(c.Args, genC17Arg(t, root))
 	}
+	if c.Form == "lookup" {
+		c.Slot = rapid.IntRange(0, 4).Draw(t, "lookupForm")
+	}
 	if c.Form == "lookup" && c.Variant != 4 {
 		// a map of the zoo and a present / absent / present-but-nil key
 		m := []string{"M", "MI", "MN", "MA", "MP"}[rapid.IntRange(0, 4).Draw(t, "lookupMap")]
@@ -141,6 +144,16 @@ func (c c17Case) template() string {
 		// a slice used as the key of a map[interface{}]T: a Go runtime error while resolving - still just "not set"
 		return "[{{ isset(root.MK[unhashableKey], " + strings.Join(parts, ", ") + ") }}]"
 	case "lookup":
+		switch c.Slot % 5 {
+		case 1: // assigning form, both variables declared before
+			return "{{ v := 0 }}{{ ok := 0 }}{{ v, ok = " + parts[0] + " }}[{{ ok }}]"
+		case 2:
+			return "{{ _, ok := " + parts[0] + " }}[{{ ok }}]"
+		case 3:
+			return "{{ ok := 0 }}{{ _, ok = " + parts[0] + " }}[{{ ok }}]"
+		case 4:
+			return "[{{ if v, ok := " + parts[0] + "; ok }}true{{ else }}false{{ end }}]"
+		}
 		return "{{ v, ok := " + parts[0] + " }}[{{ ok }}]"
 	}
 	return "[{{ isset(" + strings.Join(parts, ", ") + ") }}]"
@@ -242,7 +255,7 @@ func judgeC17(c c17Case) (v core.Verdict) {
 
 func TestC17(t *testing.T) {
 	core.Run(t, "C17",
-		"isset over 1-4 access paths (identifier, field, index and chain expressions; valid or invalid at any depth; nil pointers, nil maps, nil and typed-nil interfaces, absent keys, zero numbers, empty strings, false; literal and variable indexes, some undefined; undefined root) into 6 zoo variants, written isset(a, b) / isset: a, b / v | isset, plus two-value look-ups v, ok := m[k] on maps with present, absent and present-but-nil entries; oracle = independent existence evaluator; non-trivial = exactly one failing argument, or a zero-but-present value, or a nil pointer",
+		"isset over 1-4 access paths (identifier, field, index and chain expressions; valid or invalid at any depth; nil pointers, nil maps, nil and typed-nil interfaces, absent keys, zero numbers, empty strings, false; literal and variable indexes, some undefined; undefined root) into 6 zoo variants, written isset(a, b) / isset: a, b / v | isset, plus two-value look-ups (v, ok := m[k]; v, ok = m[k]; with _ for v; as the header of an if) on maps with present, absent and present-but-nil entries; oracle = independent existence evaluator; non-trivial = exactly one failing argument, or a zero-but-present value, or a nil pointer",
 		genC17, judgeC17)
 }
 
